@@ -409,4 +409,225 @@ Section Batch.
     cbn [legal] in Hl. apply andb_true_iff in Hl as [Hl1 Hl2].
     apply IH; [apply step_inv; assumption|exact Hl2].
   Qed.
+
+  (* ---------------- the scale bracket along histories (scalar outputs) ---------------- *)
+  Notation BInv := (@BInv num sub mul div ltb eqb zero one L P).
+  Notation BInvAt := (@BInvAt num sub mul div ltb eqb zero one L P).
+  Notation DScal := (@DScal num).
+
+  Definition is_ys (y : Y num) : bool := match y with YS _ => true | YV _ => false end.
+  Definition scalar_op (o : op num) : bool :=
+    match o with
+    | Tell _ y => is_ys y
+    | TellMany xys _ => forallb (fun xy => is_ys (snd xy)) xys
+    | _ => true
+    end.
+
+  Lemma dscal_fold xys : forallb (fun xy : num * Y num => is_ys (snd xy)) xys = true ->
+    forall d, DScal d -> DScal (fold_left (fun d xy => dset (fst xy) (snd xy) d) xys d).
+  Proof.
+    induction xys as [|[x y] xys IH]; intros Hf d HD; cbn [fold_left]; [exact HD|].
+    cbn [forallb snd fst] in *. apply andb_true_iff in Hf as [H1 H2].
+    apply IH; [exact H2|]. destruct y as [v|vs]; [|discriminate]. apply dscal_dset. exact HD.
+  Qed.
+
+  Lemma col_fold_scalar (f : num -> num -> num) (ys : list (Y num)) :
+    (forall y, In y ys -> exists v, y = YS v) -> ys <> [] -> exists m, L1D.col_fold f ys = [m].
+  Proof.
+    intros Hall Hne. destruct ys as [|y ys]; [congruence|]. clear Hne.
+    destruct (Hall y (or_introl eq_refl)) as [v0 ->]. cbn [L1D.col_fold L1D.y_components].
+    assert (Hall' : forall y, In y ys -> exists v, y = YS v) by (intros y Hy; apply Hall; right; exact Hy).
+    clear Hall. generalize v0. induction ys as [|y ys IH]; intros m; cbn [fold_left]; [eauto|].
+    destruct (Hall' y (or_introl eq_refl)) as [v ->]. cbn [L1D.y_components L1D.map2].
+    apply IH. intros y Hy. apply Hall'. right; exact Hy.
+  Qed.
+
+  Lemma cond_fold_fields ti : forall (s : st),
+    let r := fold_left (fun s iv => match lget iv (los s) with Some _ => update_interp s iv | None => s end) ti s in
+    data r = data s /\ bby r = bby s /\ sy r = sy s.
+  Proof.
+    induction ti as [|[a b] ti IH]; intros s; cbn [fold_left]; cbn zeta; [tauto|].
+    destruct (lget (a, b) (los s)); [|apply IH].
+    destruct (IH (update_interp s (a, b))) as [H1 [H2 H3]]. cbn zeta in *. rewrite H1, H2, H3. cbn. tauto.
+  Qed.
+
+  Lemma batch_fields (s : st) (xys : list (num * Y num)) :
+    let r := tell_many_batch s xys in
+    let data' := fold_left (fun d xy => dset (fst xy) (snd xy) d) xys (data s) in
+    let ys := map snd data' in
+    let y0 := match ys with y :: _ => y | [] => YS zero end in
+    let mn := L1D.col_fold (L1D.np_min2 ltb is_nan) ys in
+    let mx := L1D.col_fold (L1D.np_max2 ltb is_nan) ys in
+    data r = data' /\ bby r = (L1D.wrap_like zero y0 mn, L1D.wrap_like zero y0 mx) /\
+    sy r = L1D.arr_max ltb zero is_nan (L1D.map2 sub mx mn).
+  Proof.
+    cbn zeta. unfold L1D.tell_many_batch.
+    match goal with |- context [batch_combined ?a ?b [] []] => destruct (batch_combined a b [] []) as [lc ti] end.
+    match goal with |- context [fold_left ?f ti ?s3] =>
+      destruct (cond_fold_fields ti s3) as [H1 [H2 H3]] end.
+    cbn zeta in H1, H2, H3. rewrite H1, H2, H3. cbn. tauto.
+  Qed.
+
+  Lemma batch_binv (s : st) (xys : list (num * Y num)) : SInv s -> DInv s -> DScal (data s) ->
+    forallb (fun xy : num * Y num => is_ys (snd xy)) xys = true -> BInv (tell_many_batch s xys).
+  Proof.
+    intros HI HD Hds Hf.
+    destruct (batch_inv xys HI HD) as [R1 [R2 [R3 [R4 R5]]]].
+    destruct (batch_fields s xys) as [F1 [F2 F3]]. cbn zeta in *.
+    set (r := tell_many_batch s xys) in *.
+    set (data' := fold_left (fun d xy => dset (fst xy) (snd xy) d) xys (data s)) in *.
+    assert (Hds' : DScal data') by (apply dscal_fold; assumption).
+    destruct data' as [|[x0 y0] d0] eqn:Ed.
+    - (* no data at all: no interval either *)
+      cbn in F2, F3. exists zero, zero, None. unfold L1DValues.BInvAt.
+      split; [exact F2|]. split; [rewrite F1; exact Hds'|]. split; [left; exact F1|].
+      split; [rewrite R4; exact F3|]. split; [left; symmetry; exact R4|].
+      intros [a b] Hk. exfalso. apply (s_los_keys R1) in Hk. destruct Hk as [Ha _]. cbn [fst] in Ha.
+      apply (s_real R1) in Ha. rewrite F1 in Ha. apply Ha. reflexivity.
+    - assert (Hall : forall y, In y (map snd ((x0, y0) :: d0)) -> exists v, y = YS v).
+      { intros y Hy. apply in_map_iff in Hy as [[x y'] [<- Hin]]. exact (Hds' _ _ Hin). }
+      assert (Hne : map snd ((x0, y0) :: d0) <> []) by discriminate.
+      destruct (col_fold_scalar (L1D.np_min2 ltb is_nan) Hall Hne) as [m Em].
+      destruct (col_fold_scalar (L1D.np_max2 ltb is_nan) Hall Hne) as [M EM].
+      rewrite Em, EM in F2, F3.
+      destruct (Hds' x0 y0 (or_introl eq_refl)) as [v0 ->]. cbn in F2, F3.
+      exists m, M, (Some (m, M)). unfold L1DValues.BInvAt.
+      split; [exact F2|]. split; [rewrite F1; exact Hds'|]. split; [right; exact F3|].
+      split; [split; [rewrite R4; exact F3|split; apply (le_refl OL)]|].
+      split; [left; symmetry; exact R4|].
+      intros iv Hk. exists m, M. split; [apply (le_refl OL)|]. split; [apply (le_refl OL)|].
+      split; [split; apply (le_refl OL)|]. rewrite (R3 iv Hk), <- F3. reflexivity.
+  Qed.
+
+  Definition BFull (s : st) : Prop := Inv s /\ BInv s.
+
+  Lemma step_binv (s : st) o : BFull s -> legal_op s o = true -> scalar_op o = true -> BFull (fst (step s o)).
+  Proof.
+    intros [HInv HB] Hl Hsc. split; [apply step_inv; assumption|].
+    destruct HInv as [HI [HD HV]].
+    destruct o as [x y|x|xys force| |n c]; cbn [L1D.step fst legal_op scalar_op] in *.
+    - destruct y as [v|vs]; [|discriminate].
+      apply (tell_binv add inf neg_inf is_nan is_inf round12 OL); assumption.
+    - apply (tell_pending_binv add inf is_nan is_inf round12); exact HB.
+    - unfold L1D.tell_many.
+      destruct (negb force && negb ((length (data s) <? 2 * length xys) && (2 <? length xys))) eqn:Ec.
+      + clear Ec. revert s HI HD HV HB Hl. induction xys as [|[x y] xys IH]; intros s HI HD HV HB Hl; cbn [fold_left]; [exact HB|].
+        cbn [forallb fst snd] in Hl, Hsc. apply andb_true_iff in Hl as [Hl1 Hl2]. apply andb_true_iff in Hsc as [Hs1 Hs2].
+        destruct y as [v|vs]; [|discriminate]. cbn [fst snd].
+        apply IH; [exact Hs2| | | | |exact Hl2].
+        * apply (tell_sinv add sub mul div zero one inf neg_inf is_nan is_inf round12 L P OL); assumption.
+        * apply dinv_tell; assumption.
+        * apply (tell_vinv add inf neg_inf is_nan is_inf round12 OL); assumption.
+        * apply (tell_binv add inf neg_inf is_nan is_inf round12 OL); assumption.
+      + destruct HB as [b0 [b1 [ob [_ [Hds _]]]]]. apply batch_binv; assumption.
+    - eapply (binv_fields (s := s)); [..|exact HB]; reflexivity.
+    - unfold L1D.ask. cbn [fst]. destruct c; [|exact HB].
+      apply (fold_tell_pending_binv add inf is_nan is_inf round12); exact HB.
+  Qed.
+
+  Theorem bracket_inv h : forall (s : st), BFull s -> legal s h = true -> forallb scalar_op h = true -> BFull (run s h).
+  Proof.
+    induction h as [|o h IH]; intros s HB Hl Hs; [exact HB|].
+    change (run s (o :: h)) with (run (fst (step s o)) h).
+    cbn [legal forallb] in Hl, Hs. apply andb_true_iff in Hl as [Hl1 Hl2]. apply andb_true_iff in Hs as [Hs1 Hs2].
+    apply IH; [apply step_binv; assumption|exact Hl2|exact Hs2].
+  Qed.
+
+  (* ---------------- the same for vector outputs of length k, no NaN ---------------- *)
+  Notation BInvV := (@BInvV num sub mul div ltb eqb zero one is_nan L P).
+  Notation DVec := (@DVec num).
+
+  Definition is_yv (k : nat) (y : Y num) : bool := match y with YS _ => false | YV vs => length vs =? k end.
+  Definition vector_op (k : nat) (o : op num) : bool :=
+    match o with
+    | Tell _ y => is_yv k y
+    | TellMany xys _ => forallb (fun xy => is_yv k (snd xy)) xys
+    | _ => true
+    end.
+
+  Lemma dvec_fold k xys : forallb (fun xy : num * Y num => is_yv k (snd xy)) xys = true ->
+    forall d, DVec k d -> DVec k (fold_left (fun d xy => dset (fst xy) (snd xy) d) xys d).
+  Proof.
+    induction xys as [|[x y] xys IH]; intros Hf d HD; cbn [fold_left]; [exact HD|].
+    cbn [forallb snd fst] in *. apply andb_true_iff in Hf as [H1 H2].
+    apply IH; [exact H2|]. destruct y as [v|vs]; [discriminate|]. cbn [is_yv] in H1. apply Nat.eqb_eq in H1.
+    apply dvec_dset; assumption.
+  Qed.
+
+  Lemma col_fold_length k (f : num -> num -> num) (ys : list (Y num)) :
+    (forall y, In y ys -> exists vs, y = YV vs /\ length vs = k) -> ys <> [] -> length (L1D.col_fold f ys) = k.
+  Proof.
+    intros Hall Hne. destruct ys as [|y ys]; [congruence|]. clear Hne.
+    destruct (Hall y (or_introl eq_refl)) as [v0 [-> Hv0]]. cbn [L1D.col_fold L1D.y_components].
+    assert (Hall' : forall y, In y ys -> exists vs, y = YV vs /\ length vs = k) by (intros y Hy; apply Hall; right; exact Hy).
+    clear Hall. revert v0 Hv0. induction ys as [|y ys IH]; intros m Hm; cbn [fold_left]; [exact Hm|].
+    destruct (Hall' y (or_introl eq_refl)) as [v [-> Hv]]. cbn [L1D.y_components].
+    apply IH; [intros y Hy; apply Hall'; right; exact Hy|]. rewrite map2_length; congruence.
+  Qed.
+
+  Lemma batch_binvv k (s : st) (xys : list (num * Y num)) : SInv s -> DInv s -> DVec k (data s) ->
+    forallb (fun xy : num * Y num => is_yv k (snd xy)) xys = true -> BInvV k (tell_many_batch s xys).
+  Proof.
+    intros HI HD Hds Hf.
+    destruct (batch_inv xys HI HD) as [R1 [R2 [R3 [R4 R5]]]].
+    destruct (batch_fields s xys) as [F1 [F2 F3]]. cbn zeta in *.
+    set (r := tell_many_batch s xys) in *.
+    set (data' := fold_left (fun d xy => dset (fst xy) (snd xy) d) xys (data s)) in *.
+    assert (Hds' : DVec k data') by (apply dvec_fold; assumption).
+    split; [rewrite F1; exact Hds'|]. split; [left; symmetry; exact R4|].
+    destruct data' as [|[x0 y0] d0] eqn:Ed.
+    - left. cbn in F2, F3. split; [exact F1|]. split; [intros a b; rewrite F2; discriminate|].
+      rewrite R4. exact F3.
+    - right.
+      assert (Hall : forall y, In y (map snd ((x0, y0) :: d0)) -> exists vs, y = YV vs /\ length vs = k).
+      { intros y Hy. apply in_map_iff in Hy as [[x y'] [<- Hin]]. exact (Hds' _ _ Hin). }
+      assert (Hne : map snd ((x0, y0) :: d0) <> []) by discriminate.
+      pose proof (col_fold_length (L1D.np_min2 ltb is_nan) Hall Hne) as Lm.
+      pose proof (col_fold_length (L1D.np_max2 ltb is_nan) Hall Hne) as LM.
+      destruct (Hds' x0 y0 (or_introl eq_refl)) as [v0 [-> Hv0]].
+      cbn [map snd L1D.wrap_like] in F2, F3, Lm, LM.
+      match type of F2 with _ = (YV ?a, YV ?b) => exists a, b, (Some (a, b)) end.
+      unfold L1DValues.BInvVAt.
+      split; [exact F2|]. split; [exact Lm|]. split; [exact LM|]. split; [exact F3|].
+      split; [split; [rewrite R4; exact F3|split; apply (lle_refl OL)]|].
+      intros iv Hk. eexists _, _. split; [apply (lle_refl OL)|]. split; [apply (lle_refl OL)|].
+      split; [split; apply (lle_refl OL)|]. rewrite (R3 iv Hk). unfold L1DValues.scv. rewrite <- F3. reflexivity.
+  Qed.
+
+  Definition VFull (k : nat) (s : st) : Prop := Inv s /\ BInvV k s.
+
+  Lemma step_binvv k (s : st) o : (forall z, is_nan z = false) ->
+    VFull k s -> legal_op s o = true -> vector_op k o = true -> VFull k (fst (step s o)).
+  Proof.
+    intros NoNaN [HInv HB] Hl Hsc. split; [apply step_inv; assumption|].
+    destruct HInv as [HI [HD HV]].
+    destruct o as [x y|x|xys force| |n c]; cbn [L1D.step fst legal_op vector_op] in *.
+    - destruct y as [v|vs]; [discriminate|]. cbn [is_yv] in Hsc. apply Nat.eqb_eq in Hsc.
+      apply (tell_binvv add inf neg_inf is_inf round12 OL); assumption.
+    - apply (tell_pending_binvv add inf is_inf round12); exact HB.
+    - unfold L1D.tell_many.
+      destruct (negb force && negb ((length (data s) <? 2 * length xys) && (2 <? length xys))) eqn:Ec.
+      + clear Ec. revert s HI HD HV HB Hl. induction xys as [|[x y] xys IH]; intros s HI HD HV HB Hl; cbn [fold_left]; [exact HB|].
+        cbn [forallb fst snd] in Hl, Hsc. apply andb_true_iff in Hl as [Hl1 Hl2]. apply andb_true_iff in Hsc as [Hs1 Hs2].
+        destruct y as [v|vs]; [discriminate|]. cbn [fst snd is_yv] in *. apply Nat.eqb_eq in Hs1.
+        apply IH; [exact Hs2| | | | |exact Hl2].
+        * apply (tell_sinv add sub mul div zero one inf neg_inf is_nan is_inf round12 L P OL); assumption.
+        * apply dinv_tell; assumption.
+        * apply (tell_vinv add inf neg_inf is_nan is_inf round12 OL); assumption.
+        * apply (tell_binvv add inf neg_inf is_inf round12 OL); assumption.
+      + destruct HB as [Hds _]. apply batch_binvv; assumption.
+    - eapply (binvv_fields (s := s)); [..|exact HB]; reflexivity.
+    - unfold L1D.ask. cbn [fst]. destruct c; [|exact HB].
+      apply (fold_tell_pending_binvv add inf is_inf round12); exact HB.
+  Qed.
+
+  Theorem bracket_inv_v k h : (forall z, is_nan z = false) -> forall (s : st),
+    VFull k s -> legal s h = true -> forallb (vector_op k) h = true -> VFull k (run s h).
+  Proof.
+    intros NoNaN. induction h as [|o h IH]; intros s HB Hl Hs; [exact HB|].
+    change (run s (o :: h)) with (run (fst (step s o)) h).
+    cbn [legal forallb] in Hl, Hs. apply andb_true_iff in Hl as [Hl1 Hl2]. apply andb_true_iff in Hs as [Hs1 Hs2].
+    apply IH; [apply step_binvv; assumption|exact Hl2|exact Hs2].
+  Qed.
+
 End Batch.
